@@ -42,9 +42,38 @@ def truncation_fails(case):
     return None
 
 
+def branch_fails(case):
+    """a data-dependent branch `u = x*y if x <cmp> y else x-y` takes the same path, and gives the same low-order
+    coefficients, whatever the number of coefficients carried"""
+    from props import c10
+    f = c10.CMP[case['cmp']]
+    x, y = np.array(case['x']), np.array(case['y'])
+    D = case['D']
+
+    def prog(xd, yd):
+        a, b = UTPM(xd.copy()), UTPM(yd.copy())
+        if case['mode'] == 'scalar':
+            t = bool(f(a, case['scalar']))
+        else:
+            t = bool(f(a, b))
+        return t, (a * b if t else a - b).data
+    t_full, u_full = prog(x, y)
+    for Dp in range(1, D):
+        t, u = prog(x[:Dp], y[:Dp])
+        if t != t_full:
+            return 'truncation-branch-%s: the comparison is %s with D=%d but %s with D\'=%d' % (case['cmp'], t_full, D, t, Dp)
+        if not close(u_full[:Dp], u, 1e-12):
+            return 'truncation-branch-%s: the branch result differs in its first %d coefficients' % (case['cmp'], Dp)
+    return None
+
+
 def run_case(ctx, case):
+    if case.get('op') == 'cmp':
+        return branch_fails(case)
     if 'prog' in case:
         return revchecks.truncation_adjoint_fails(case)
+    if case.get('rev'):
+        return revchecks.op_truncation_adjoint_fails(case)
     if 'fn' in case:       # a C01-style kernel case
         return c01.run_case(ctx, case)
     return truncation_fails(case)
@@ -80,6 +109,35 @@ def run(ctx):
         f = revchecks.truncation_adjoint_fails(case)
         if f:
             ctx.report(case, 'failure', f)
+    # data-dependent branches on comparisons
+    from props import c10
+    for i in range(200 if ctx.tier == 'quick' else 3000):
+        case = c10.cmp_case(ctx.rng)
+        ctx.evaluations += 1
+        ctx.count('branch=' + case['cmp'])
+        h = canon_hash(to_jsonable(case))
+        if h not in ctx.hashes:
+            ctx.hashes.add(h)
+            if case['D'] >= 2:
+                ctx.nontrivial += 1
+        f = branch_fails(case)
+        if f:
+            ctx.report(case, 'failure', f)
+    # reverse sweep of single operations
+    for name in revchecks.reversible_ops():
+        for k in range(3 if ctx.tier == 'quick' else 40):
+            case = ops.gen_case(ctx.rng, ctx.tier, name, D=ctx.rng.randint(2, 5))
+            case['seed'] = ctx.rng.randrange(1 << 30)
+            case['rev'] = True
+            ctx.evaluations += 1
+            ctx.count('reverse-op')
+            h = canon_hash(to_jsonable(case))
+            if h not in ctx.hashes:
+                ctx.hashes.add(h)
+                ctx.nontrivial += 1
+            f = revchecks.op_truncation_adjoint_fails(case)
+            if f:
+                ctx.report(case, 'failure', f)
     # the tie of the kernels the theorems talk about: model vs implementation at D and D'
     m = 120 if ctx.tier == 'quick' else 1500
     for i in range(m):
